@@ -524,13 +524,71 @@ RULE = ("arrays: every shape with extents 0..4 and rank 0..5 (3906) x dtype {flo
         "for that shape and dtype are skipped, so every case is distinct by construction; table mode: %s; LaTeX mode: "
         "every 2-D shape x dtype x fill x nd 0..8 x titles; titles %s.  objects (table mode): %s.  Each case = one "
         "printing call (stdout captured) + one noprint call.  Element faithfulness is decided for every array case "
-        "of rank<=4 whose entries are all below 9999 in magnitude (LaTeX: rank 2).")
+        "of rank<=4 whose entries are all below 9999 in magnitude (LaTeX: rank 2).  histories: 7 primers x nd 0..8 x 4 follow-up "
+        "renderings, each in a re-loaded display module (two-call histories).")
+
+
+PRIMERS = ("huge_array", "huge_tm_list", "special_array", "empty_array", "nested_list", "string", "bool_latex")
+
+
+def _primer(name):
+    from basic_robotics.general import tm
+    return {"huge_array": (np.array([1.5e7, -2.25e8, 3.0]), 0), "huge_tm_list": ([tm([1e7, -2e8, 3.0, 0.1, 0.2, 0.3])], 0),
+            "special_array": (np.array([[np.inf, np.nan], [1e300, -9998.5]]), 0), "empty_array": (np.zeros((0, 3)), 0),
+            "nested_list": ([[1, 2.5], ("a", None)], 0), "string": ("text", 0),
+            "bool_latex": (np.array([[True, False], [False, True]]), 1)}[name]
+
+
+def _history_case(primer, nd, kind):
+    """A two-call history in a process-fresh display module: `primer` is rendered first (same nd), then an ordinary
+    in-scope array.  The second rendering must be as faithful as if it had been the first (module-level state, e.g. a
+    format cache filled by the first call, must not leak)."""
+    import importlib
+    import basic_robotics.utilities.disp as dm
+    dm = importlib.reload(dm)            # module-level state as at process start
+    _DISP[:] = [dm.disp]
+    try:
+        pobj, pmode = _primer(primer)
+        render(pobj, "P", nd, pmode, True, True)
+        if kind == "tm_list":
+            from basic_robotics.general import tm
+            obj = [tm([0.125, -2.5, 3.0625, 0.1, 0.2, 0.3]), tm([1.5, 2.25, -0.75, 0.0, 0.0, 0.5])]
+            bad, _ = evaluate(obj, "T", nd, 0, True)
+            st, sfirst, _p = render(obj, "T", nd, 0, True, True)
+            dm2 = importlib.reload(dm)
+            _DISP[:] = [dm2.disp]
+            st2, sclean, _p = render(obj, "T", nd, 0, True, True)
+            if st == "ok" and st2 == "ok" and sfirst != sclean:
+                bad.append({"clause": "depends_on_earlier_calls", "observed": {"after_primer": _clip(sfirst), "fresh": _clip(sclean)}})
+            return bad
+        shape = {"vec": (4,), "mat": (3, 4), "cube": (2, 3, 2)}[kind]
+        arr = make_array(shape, "float64", "ramp", 0)
+        bad, _ = evaluate(arr, "M", nd, 0, True, arr)
+        return bad
+    finally:
+        _DISP[:] = []
+
+
+def work_histories(p):
+    acc = lattice.Acc()
+    cases = [(pr, nd, k) for pr in PRIMERS for nd in range(9) for k in ("vec", "mat", "cube", "tm_list")]
+    per = {}
+    for pr, nd, k in cases[p["lo"]:p["hi"]]:
+        case = {"kind": "history", "primer": pr, "nd": nd, "then": k}
+        try:
+            bad = _history_case(pr, nd, k)
+        except Exception as e:
+            bad = [{"clause": "raised", "observed": {"exception": repr(e)}}]
+        _record(acc, per, bad, case)
+        acc.case(("h", pr, nd, k))
+    return acc.result()
 
 
 def run(ctx):
     with ctx.pool() as pool:
         m_arr = lattice.run(ctx, pool, MOD, "work_arrays", N_SHAPES, nshards=pool.workers * 8, part="arrays")
-        parts = [("arrays", m_arr)]
+        m_hist = lattice.run(ctx, pool, MOD, "work_histories", len(PRIMERS) * 9 * 4, part="histories")
+        parts = [("arrays", m_arr), ("histories", m_hist)]
         fam_txt = []
         for fam, n, nds, titles, pds in object_families(ctx.tier):
             m = lattice.run(ctx, pool, MOD, "work_objects", n, part=fam, nshards=pool.workers * 2 if n > 2000 else min(n, 4),
@@ -564,6 +622,9 @@ def run(ctx):
 def replay(rec):
     c = rec["case"]
     seed = int(rec.get("seed", 0) or 0)
+    if c["kind"] == "history":
+        bad = _history_case(c["primer"], int(c["nd"]), c["then"])
+        return [b for b in bad if b["clause"] == rec["clause"]]
     if c["kind"] == "array":
         arr = make_array(c["shape"], c["dtype"], c["fill"], seed)
         bad, _ = evaluate(arr, c["title"], int(c["nd"]), int(c["mode"]), bool(c["pdims"]), arr)
